@@ -32,6 +32,7 @@ func init() {
 
 func runC13(p *Prog, r *Report) {
 	c13Shapes(p, r)
+	jsonEmittersQuoteAsJSON(p, r, "R13.14-json-quoting", 15)
 	c13FnVocabulary(p, r)
 	c13UseNumber(p, r)
 	exactNumberSites(p, r, "R13.3-untyped-decode-sites")
